@@ -105,9 +105,23 @@ def run(ctx):
                 good = p.payload == Adt('opaque_ke::errors::InternalError', 'KsfError', [])
                 rep.ob('R15.6', 'Argon2 adapter: failure returns KsfError', good, show(p.payload), w, 'argon2')
         rep.ob('R15.6', 'Argon2 adapter: both outcomes present', n_ok >= 1 and n_err >= 1, 'ok=%d err=%d' % (n_ok, n_err), w, 'argon2')
+    # R15.7 the built-in no-op KSF returns its input (what "Identity" means in the suites' configuration; RFC 9807 section 7, Identity KSF)
+    n_id = 0
+    for sn in suites:
+        S = ctx.suite(sn)
+        for b in S.bodies.values():
+            if b.get('impl_trait_dpath') == 'opaque_ke::ksf::Ksf' and b.get('name') == 'hash' and 'ksf::Identity' in b['path']:
+                sm = ctx.summary(sn, b['generic_path'], params=[Sym('self'), Sym('input')])
+                good = sm.complete and len(sm.paths) == 1 and sm.paths[0].outcome == 'Ok' and sm.paths[0].payload == Sym('input')
+                n_id += int(good)
+                rep.ob('R15.7', 'the Identity KSF returns Ok(input), unmodified, on its only path', good,
+                       'paths: %s' % [(q.outcome, show(q.value)[:80]) for q in sm.paths[:3]], where_of(sm), sn, sample='Identity::hash(input) = Ok(input)')
     ns = len(suites)
+    rep.floor('R15.7', 'Identity KSF instances reviewed (every suite except the Argon2 one)', n_id, ns - 1)
     rep.floor('R15.1', 'finish Ok paths with exactly one KSF call', n_once, 2 * 8 * ns)
     rep.floor('R15.5', 'Ok paths with all secrets bound', n_bound, 2 * 8 * ns)
     from rules import profile
     profile.check(ctx, rep, 'R15.P', ['creg_finish', 'clog_finish'])
+    from rules import lclone
+    lclone.check(ctx, rep, 'R15.C')
     return rep
